@@ -418,6 +418,26 @@ fn run_case<T: Scalar>(desc: &str, ops: &[&str]) -> String {
             continue;
         }
         match kind {
+            // Q<i>=<value>*<k>: k quiet updates with the same value, one '-' in the output (streams of 10^5 .. 10^6 values)
+            "Q" => {
+                let (tok, reps) = val.unwrap().split_once('*').unwrap();
+                let reps: usize = reps.parse().unwrap();
+                let (n, d) = ratio(tok);
+                let x = T::from_ratio(&n, &d);
+                let v = inst[idx].as_mut().unwrap();
+                let r = catch_unwind(AssertUnwindSafe(|| {
+                    for _ in 0..reps {
+                        v.update(x);
+                    }
+                }));
+                match r {
+                    Ok(()) => out.push('-'),
+                    Err(_) => {
+                        out.push('E');
+                        inst[idx] = None;
+                    }
+                }
+            }
             "u" | "q" | "v" => {
                 let quiet = kind == "q";
                 let nopop = kind == "v";
